@@ -2,7 +2,7 @@
    Model/Graph.v IS the text-level semantics (a state is the list of the lines of the Gfa; an operation edits that list),
    tied to the implementation by the correspondence run on generated histories.  Proved here: what rm deletes. *)
 From Coq Require Import List String Ascii ZArith Bool.
-From GfaV Require Import Base.Py Gen.Tables Model.Codec Model.Graph Proofs.GraphP.
+From GfaV Require Import Base.Py Gen.Tables Model.Codec Model.Graph Proofs.GraphP Proofs.RenameP.
 Import ListNotations.
 Open Scope string_scope.
 
@@ -47,6 +47,27 @@ Proof. vm_compute. repeat split. Qed.
 Print Assumptions C05_dependency_tables_are_documented.
 
 (* non-vacuity: removing a segment with two links on one end, a path over one of them and a containment *)
+(* renaming rewrites the identifier wherever it is mentioned and nothing else: the lines of the new state are the old
+   ones, the renamed line carrying the new identifier (and moved to the end of its collection), every other line
+   rewritten by [ren]; the mentions of a rewritten line are the old mentions with the old identifier replaced; a line that
+   did not mention the old identifier mentions what it mentioned before *)
+Theorem C05_rename_edits_the_lines : forall s old new s' x,
+  find_named s old = Some x -> find_named s new = None -> rename s old new = Ok s' ->
+  lines s' = (map (ren old new) (filter (fun l => negb (Nat.eqb (g_id l) (g_id x))) (lines s)) ++ [renamed new x])%list.
+Proof. exact rename_lines. Qed.
+Print Assumptions C05_rename_edits_the_lines.
+
+Theorem C05_rename_rewrites_every_mention : forall old new l,
+  clean old = true -> clean new = true -> mentions (ren old new l) = map (retarget old new) (mentions l).
+Proof. exact mentions_ren. Qed.
+Print Assumptions C05_rename_rewrites_every_mention.
+
+Theorem C05_rename_leaves_other_mentions : forall old new l,
+  clean old = true -> clean new = true -> (forall m, In m (mentions l) -> m_target m <> old) ->
+  mentions (ren old new l) = mentions l.
+Proof. exact ren_untouched. Qed.
+Print Assumptions C05_rename_leaves_other_mentions.
+
 Example C05_witness :
   let t := String tab EmptyString in
   let ops := [OAdd ("S" ++ t ++ "A" ++ t ++ "*"); OAdd ("S" ++ t ++ "B" ++ t ++ "*"); OAdd ("S" ++ t ++ "C" ++ t ++ "*");
